@@ -9,6 +9,7 @@ import (
 	"github.com/elastic/go-txfile/pq"
 
 	"verif/core"
+	"verif/filecheck"
 	"verif/simdisk"
 )
 
@@ -155,6 +156,16 @@ func runQCrashCase(c *core.Case) *core.Result {
 	q := NewQWorld(cfg, QMon{Property: "C06"}, r, res)
 	q.Markers = true
 	q.TraceOn = c.Verbose
+	if c.Idx%5 == 2 {
+		// writer-ahead schedule (see filecheck C01): the sync requests of the
+		// commits find all earlier writes already executed
+		q.Hook = func(name string, arg int) {
+			if name == "commit/before-data-sync" || name == "commit/before-meta-sync" {
+				filecheck.WaitWriterIdle(q.Disk)
+			}
+		}
+		res.Add("writer_ahead_histories", 1)
+	}
 	if !q.Open() {
 		return res
 	}
